@@ -8,8 +8,10 @@
 package main
 
 import (
+	"bufio"
 	"context"
 	"encoding/binary"
+	"encoding/json"
 	"errors"
 	"flag"
 	"fmt"
@@ -27,6 +29,7 @@ import (
 	"github.com/gopacket/gopacket/layers"
 
 	"github.com/scionproto/scion/pkg/addr"
+	"github.com/scionproto/scion/pkg/log"
 	"github.com/scionproto/scion/private/underlay/conn"
 	"github.com/scionproto/scion/router"
 	"github.com/scionproto/scion/router/bfd"
@@ -333,7 +336,7 @@ func tagged(kind string, id int) []byte {
 	return p
 }
 
-func oneTrace(w *vt.Writer, rng *rand.Rand, id int, st *stats) {
+func oneTrace(w *traceWriter, rng *rand.Rand, id int, st *stats) {
 	batch := 1 + rng.Intn(4)
 	np := 1 + rng.Intn(3)
 	ns := 1 + rng.Intn(2)
@@ -652,6 +655,35 @@ func oneTrace(w *vt.Writer, rng *rand.Rand, id int, st *stats) {
 	lap("quiesce")
 	// (a router whose buffer accounting is broken can block forever in Put / Get: give up after
 	// 20 s and record it; the event has no specification action)
+	// Shutdown under harmless traffic (two traces out of three): datagrams that are no SCION packets
+	// keep arriving while the sockets are being closed. They are returned to the pool by the link's
+	// receive (external, sibling) or by the internal link's processor / its drain at stop, never
+	// sent anywhere, so the unchanged design cannot hit a closed queue; receivers then also leave
+	// their loop after a successful read (pre-fetch partly used).
+	if !timedOut && id%3 != 0 {
+		for _, c := range op.order {
+			for k := 0; k < 3+rng.Intn(4); k++ {
+				var b burst
+				for j := 0; j < 1+rng.Intn(2*batch); j++ {
+					via := uint16(1)
+					if c.name == "internal" {
+						via = 0
+					}
+					b.pkts = append(b.pkts, inPkt{raw: garbage(1+rng.Intn(40), false), kind: "garbage", src: rtpkt.SrcOf(via)})
+				}
+				select {
+				case c.in <- b:
+				default:
+				}
+			}
+		}
+		for y := rng.Intn(40); y > 0; y-- {
+			runtime.Gosched()
+		}
+		if rng.Intn(3) == 0 {
+			time.Sleep(time.Duration(rng.Intn(200)) * time.Microsecond)
+		}
+	}
 	shut := make(chan struct{})
 	go func() { v.D.Shutdown(); cancel(); <-runDone; close(shut) }()
 	select {
@@ -678,11 +710,42 @@ func oneTrace(w *vt.Writer, rng *rand.Rand, id int, st *stats) {
 	for _, e := range evs {
 		w.Emit(e)
 	}
+	w.Flush() // complete traces survive a crash of the router in a later trace
 	st.traces++
 	st.events += len(evs)
 	for k, n := range r.sites {
 		st.sites[k] += n
 	}
+}
+
+// traceWriter writes one JSON object per line and can be flushed after every trace.
+type traceWriter struct {
+	f *os.File
+	w *bufio.Writer
+}
+
+func newTraceWriter(path string) *traceWriter {
+	f, err := os.Create(path)
+	if err != nil {
+		vt.Fatal("create %s: %v", path, err)
+	}
+	return &traceWriter{f: f, w: bufio.NewWriterSize(f, 1<<20)}
+}
+
+func (t *traceWriter) Emit(ev any) {
+	b, err := json.Marshal(ev)
+	if err != nil {
+		vt.Fatal("marshal: %v", err)
+	}
+	t.w.Write(b)
+	t.w.WriteByte('\n')
+}
+
+func (t *traceWriter) Flush() { t.w.Flush() }
+
+func (t *traceWriter) Close() {
+	t.w.Flush()
+	t.f.Close()
 }
 
 func waitUntil(d time.Duration, what string, f func() bool) {
@@ -714,9 +777,14 @@ func main() {
 		}
 		return
 	}
+	// A panic in a router goroutine ends in log.HandlePanic: logged at error level, exit status 255.
+	// Make that visible on stderr (checks/C14.py turns it into a `crash` event).
+	if err := log.Setup(log.Config{Console: log.ConsoleConfig{Level: "error", Format: "human"}}); err != nil {
+		vt.Fatal("log setup: %v", err)
+	}
 	f := hook
 	router.VerifPoolTracer.Store(&f)
-	w := vt.NewWriter(*out)
+	w := newTraceWriter(*out)
 	st := &stats{sites: map[string]int{}}
 	for i := *first; i < *first+*n; i++ {
 		rng := vt.Rand(1400000 + int64(i))
